@@ -203,6 +203,8 @@ def run(rep, tier):
 def check(tier):
     rep = Report("C08", tier, "other")
     declare(rep)
+    from . import c02
+    c02.param_lint(rep)
     io_array.declare_c08(rep)
     gs = run(rep, tier)
     rep.assumptions = ["std::istream::read sets failbit when fewer bytes than requested are available (iostream contract), so 'state tested after every read' covers every truncation offset",
